@@ -55,9 +55,14 @@ def main():
             data = load(p)
             sigs = {}
             examples = {}
+            grouped = collections.defaultdict(list)
             for s, ranks in fails[p].items():
-                ranks.sort()
-                sigs[s] = delta_encode(ranks)
+                coarse, _, det = s.partition("#")
+                grouped[coarse] += [(r, det) for r in ranks]
+            for s, pairs in grouped.items():
+                pairs.sort()
+                ranks = [r for r, _ in pairs]
+                sigs[s] = {"r": delta_encode(ranks), "d": [d for _, d in pairs]}
                 ex = sorted((u.doc(r) for r in ranks[:2000:max(1, min(len(ranks), 2000) // 40)]), key=len)[:3]
                 examples[s] = ex
             data["universes"][uname] = {
@@ -68,7 +73,7 @@ def main():
                 "examples": examples,
             }
             save(p, data)
-            print(f"{p} {uname}: size={u.size} fail={sum(len(v) for v in fails[p].values())} sigs={len(fails[p])} {dict(stats[p])}", flush=True)
+            print(f"{p} {uname}: size={u.size} fail={sum(len(v) for v in fails[p].values())} sigs={len(sigs)} {dict(stats[p])}", flush=True)
         print(f"== {uname} done in {time.time()-t0:.0f}s", flush=True)
 
 
